@@ -151,8 +151,9 @@ class Transformer(Visitor):
         # Then recurse over the new nodes
         visited = tuple(self.visit(i, **kwargs) for i in o)
 
-        # Strip empty sublists/subtuples or None entries
-        return tuple(i for i in visited if i is not None and as_tuple(i))
+        # Strip empty sublists/subtuples or None entries, but keep the (possibly empty) entries
+        # of a nested tuple, such as the bodies of a multi-conditional
+        return tuple(v for i, v in zip(o, visited) if v is not None and (isinstance(i, tuple) or as_tuple(v)))
 
     visit_list = visit_tuple
 
@@ -256,11 +257,12 @@ class NestedTransformer(Transformer):
         # Recurse to children first !
         visited = tuple(self.visit(i, **kwargs) for i in o)
 
-        # Inject any matching sub-set of nodes into current tuple
-        visited = self._inject_tuple_mapping(visited)
+        # Strip empty sublists/subtuples or None entries, but keep the (possibly empty) entries
+        # of a nested tuple, such as the bodies of a multi-conditional
+        visited = tuple(v for i, v in zip(o, visited) if v is not None and (isinstance(i, tuple) or as_tuple(v)))
 
-        # Strip empty sublists/subtuples or None entries
-        return tuple(i for i in visited if i is not None and as_tuple(i))
+        # Inject any matching sub-set of nodes into current tuple
+        return self._inject_tuple_mapping(visited)
 
     visit_list = visit_tuple
 
